@@ -68,7 +68,7 @@ func (c *Converter) ExpandUpdate(ctx context.Context, upd *sdcpb.Update, include
 		var v interface{}
 		var err error
 		var jsonDecoder *json.Decoder
-		switch upd.GetValue().Value.(type) {
+		switch upd.GetValue().GetValue().(type) {
 		case *sdcpb.TypedValue_JsonIetfVal:
 			jsonDecoder = json.NewDecoder(bytes.NewReader(upd.GetValue().GetJsonIetfVal()))
 		case *sdcpb.TypedValue_JsonVal:
@@ -95,7 +95,7 @@ func (c *Converter) ExpandUpdate(ctx context.Context, upd *sdcpb.Update, include
 		var err error
 
 		var jsonValue []byte
-		switch upd.GetValue().Value.(type) {
+		switch upd.GetValue().GetValue().(type) {
 		case *sdcpb.TypedValue_JsonVal:
 			jsonValue = upd.GetValue().GetJsonVal()
 		case *sdcpb.TypedValue_JsonIetfVal:
@@ -379,7 +379,7 @@ func isKey(s string, cs *sdcpb.SchemaElem_Container) bool {
 }
 
 func TypedValueToYANGType(tv *sdcpb.TypedValue, schemaObject *sdcpb.SchemaElem) (*sdcpb.TypedValue, error) {
-	switch tv.Value.(type) {
+	switch tv.GetValue().(type) {
 	case *sdcpb.TypedValue_AsciiVal:
 		return ConvertToTypedValue(schemaObject, tv.GetAsciiVal(), tv.GetTimestamp())
 	case *sdcpb.TypedValue_BoolVal:
@@ -618,7 +618,7 @@ func ConvertTypedValueToYANGType(schemaElem *sdcpb.SchemaElem, tv *sdcpb.TypedVa
 			}, nil
 		}
 	case schemaElem.GetLeaflist() != nil:
-		switch tv.Value.(type) {
+		switch tv.GetValue().(type) {
 		case *sdcpb.TypedValue_LeaflistVal:
 			return tv, nil
 		}
@@ -731,7 +731,7 @@ func convertUpdateTypedValue(_ context.Context, upd *sdcpb.Update, scRsp *sdcpb.
 			return nil, nil
 		}
 		// regular leaf list
-		switch upd.GetValue().Value.(type) {
+		switch upd.GetValue().GetValue().(type) {
 		case *sdcpb.TypedValue_LeaflistVal:
 			return upd, nil
 		default:
